@@ -8,12 +8,22 @@
 pub mod io {
     use super::*;
     #[derive(Clone, Copy, PartialEq, Eq)]
-    pub enum ErrorKind { ConnectionReset, Interrupted, Other }
+    pub enum ErrorKind { ConnectionReset, Interrupted, InvalidInput, Other }
 
     #[verifier::external_body]
     pub struct Error { _p: PhantomData<u8> }
     impl Error {
         pub uninterp spec fn kind_of(&self) -> ErrorKind;
+        /// `io::Error::new(kind, payload)`: an error of that kind
+        #[verifier::external_body]
+        pub fn new<E>(kind: ErrorKind, error: E) -> (r: Error)
+            ensures r.kind_of() == kind
+        { unimplemented!() }
+        /// `io::Error::kind`
+        #[verifier::external_body]
+        pub fn kind(&self) -> (k: ErrorKind)
+            ensures k == self.kind_of()
+        { unimplemented!() }
     }
     impl From<ErrorKind> for Error {
         #[verifier::external_body]
@@ -22,6 +32,23 @@ pub mod io {
         { unimplemented!() }
     }
 }
+
+/// `?` on a `Result<_, io::ErrorKind>` in a fn returning `Result<_, io::Error>` converts with `From<ErrorKind> for Error`
+/// above (vstd leaves the conversion of `?` uninterpreted: `spec_from`; same link as prelude/connector_pool.rs)
+pub broadcast axiom fn axiom_question_mark_error_kind(k: io::ErrorKind, e: io::Error)
+    ensures #[trigger] vstd::std_specs::control_flow::spec_from::<io::Error, io::ErrorKind>(k, e) ==> e.kind_of() == k;
+
+// ---- `std::cmp::min` (generic over `Ord`; its meaning is fixed for `usize` only; same model as prelude/sniff_io.rs) ----
+pub uninterp spec fn min_spec<T>(a: T, b: T) -> T;
+pub assume_specification<T: std::cmp::Ord> [std::cmp::min] (a: T, b: T) -> (r: T)
+    ensures r == min_spec(a, b);
+pub broadcast axiom fn axiom_min_usize(a: usize, b: usize)
+    ensures #[trigger] min_spec(a, b) == (if a <= b { a } else { b });
+pub uninterp spec fn max_spec<T>(a: T, b: T) -> T;
+pub assume_specification<T: std::cmp::Ord> [std::cmp::max] (a: T, b: T) -> (r: T)
+    ensures r == max_spec(a, b);
+pub broadcast axiom fn axiom_max_usize(a: usize, b: usize)
+    ensures #[trigger] max_spec(a, b) == (if a <= b { b } else { a });
 
 // ---- std::future::Future after Pin erasure (R5): `poll(self: Pin<&mut Self>, ..)` -> `poll(&mut self, ..)` ----
 pub trait Future {
